@@ -653,7 +653,9 @@ def _verdict(ob, res, rec, sym_ok):
         l = f["label"]
         if l in [v[0] for v in violated]:
             continue
-        if sym_ok and l in labels and labels[l]["proved"] == labels[l]["paths"]:
+        clean = all(c["proved"] == c["paths"] for c in labels.values())
+        if sym_ok and clean and l in labels:
+            # every symbolic path ended in proved checks, yet the real code fails this one natively: the engine (or a model) is wrong
             res["crash"] = f"engine-unsound: {l} proved symbolically but fails natively on {f['inputs']}"
             return "crash"
         violated.append((l, f["inputs"], "bounded-native-search"))
